@@ -12,6 +12,10 @@ from .core import clist, copt, cstr
 from .exprgen import T_INT, T_DEC, T_STR, T_DATE, T_BOOL, PY
 
 ASSUMPTIONS = [
+    'translator tie of the loop of Compiler._compile_targets (C07_source_compile_targets, Proofs/SrcTargetsLoop.v): self._compile, '
+    'get_target_name (tied by C07_source_target_name), is_aggregate and get_columns_and_aggregates (tied by the C05_source_* theorems) '
+    'are opaque callables assumed to return the model\'s values; compiled nodes are references into a heap, self.table is threaded '
+    'through self._compile (Model/PrimsSelect.v)',
     'the source slice of a target (parseinfo.pos:endpos) is taken from the implementation\'s parser; the harness predicts it as '
     '"first token to last token of the expression without enclosing parentheses" and the model applies the naming rule to it',
     'identifiers are lower-cased by the parser (column names), source slices keep their spelling',
